@@ -530,6 +530,38 @@ def _tree(d):
     return out
 
 
+def _foreign_variants(content):
+    """Complete files that json can (mostly) parse but that do not describe a table of this library version."""
+    import json as _json
+    doc = _json.loads(content.decode('utf-8'))
+
+    def strip(field):
+        d = _json.loads(content.decode('utf-8'))
+        for g in d.values():
+            for e in g.values():
+                e.pop(field, None)
+        return _json.dumps(d).encode()
+
+    def retag(name):
+        d = _json.loads(content.decode('utf-8'))
+        for g in d.values():
+            for e in g.values():
+                e['__class__'] = name
+        return _json.dumps(d).encode()
+    out = [('json-null', b'null'), ('json-list', b'[]'), ('json-number', b'42'), ('json-string', b'"toc"'),
+           ('group-is-string', _json.dumps({'g': 'x'}).encode()), ('element-is-list', _json.dumps({'g': {'x': [1, 2]}}).encode()),
+           ('binary', bytes(range(256))), ('utf16', content.decode('utf-8').encode('utf-16')), ('trailing-garbage', content + b'}')]
+    if doc:
+        def changed(item):
+            try:
+                return _json.loads(item[1].decode('utf-8')) != doc
+            except Exception:
+                return True
+        out += [v for v in [('no-ident', strip('ident')), ('no-extended', strip('extended')), ('no-access', strip('access')),
+                ('no-class', strip('__class__')), ('unknown-class', retag('NoSuchTocElement')), ('class-is-int', retag(7))] if changed(v)]
+    return out
+
+
 def h_crash(sym):
     lrows, prows, victim = LOG_TABLES[sym.B['log']], PARAM_TABLES[sym.B['param']], sym.B['victim']
     CL, CP, CRO = 0x0BADCAFE, 0xF00D0001, 0x00C0FFEE
@@ -556,19 +588,30 @@ def h_crash(sym):
             content = fh.read()
         L = len(content)
         assert 2 <= L <= sym.B.get('maxlen', 2048)
-        # ---- the crash: the write of that file got as far as byte k
-        k = concretise(sym, sym.int('k', 0, L - 1), 0, L - 1)
-        sym.apply_known()
-        with open(vfile, 'wb') as fh:
-            fh.write(content[:k])
-        if k == 0:
-            sym.goal('empty-file')
-        if k == L - 1:
-            sym.goal('last-byte-missing')
+        if sym.B.get('mode') == 'foreign':
+            # ---- "otherwise unparsable": the file is complete, well-formed bytes that are not a usable table
+            variants = _foreign_variants(content)
+            k = sym.choice('variant', len(variants))
+            sym.apply_known()
+            with open(vfile, 'wb') as fh:
+                fh.write(variants[k][1])
+            sym.goal('foreign:' + variants[k][0])
+        else:
+            # ---- the crash: the write of that file got as far as byte k
+            k = concretise(sym, sym.int('k', 0, L - 1), 0, L - 1)
+            sym.apply_known()
+            with open(vfile, 'wb') as fh:
+                fh.write(content[:k])
+            if k == 0:
+                sym.goal('empty-file')
+            if k == L - 1:
+                sym.goal('last-byte-missing')
         # ---- the cache alone: a miss, not a table, not an exception
         cache = TocCache(ro_cache=ro, rw_cache=rw)
         got = cache.fetch(vcrc)
-        assert not got, ('truncated cache file produced a table', k)       # a miss is whatever the fetcher takes for one
+        if sym.B.get('mode') != 'foreign':
+            assert not got, ('truncated cache file produced a table', k)       # a miss is whatever the fetcher takes for one
+        # (foreign content: fetch must not raise; whether what it returns is taken for a table is decided by connection 2 below)
         other = cache.fetch(CP if victim == 'log' else CL)
         assert_same_table(other, snaps['param' if victim == 'log' else 'log'], 'the intact file')
         # ---- connection 2: downloads the victim's table, the other comes from the cache
@@ -604,6 +647,12 @@ def h_crash(sym):
 _NOTE_CRASH = 'k is the only symbolic input and is concretised by binary search before the file is cut (the JSON scanner is C ' \
               'code): an exhaustive, solver-driven fork over every offset, not a symbolic treatment of the file content'
 HARNESSES = [
+    Harness('foreign[log]', h_crash, quick=dict(log='one', param='one', victim='log', mode='foreign'), symbolic=False,
+            goals=('recovered', 'foreign:no-ident', 'foreign:unknown-class', 'foreign:json-null'), timeout=(300, 900),
+            note='complete but unusable cache files (older format, unknown class, wrong JSON shape), chosen by the solver from a fixed list'),
+    Harness('foreign[param]', h_crash, quick=dict(log='one', param='one', victim='param', mode='foreign'), symbolic=False,
+            goals=('recovered', 'foreign:no-extended', 'foreign:unknown-class'), timeout=(300, 900),
+            note='complete but unusable cache files (older format, unknown class, wrong JSON shape), chosen by the solver from a fixed list'),
     Harness('fmt-model', h_fmt_model, goals=('model-exercised',), timeout=(120, 300)),
     Harness('key', h_key, goals=('written', 'nothing-written', 'miss', 'hit-rw', 'hit-ro', 'rw-dir-existed'), timeout=(300, 900)),
     Harness('fidelity[log,attr]', h_fidelity, quick=dict(kind='log', n=2, how='attr'), thorough=dict(kind='log', n=3, how='attr'),
